@@ -572,17 +572,24 @@ def check_interposition(ck, mfront, gendir, one_file):
                               "to the objects compiled from the tree", "")
 
 
+def has_check_bounds(d):
+    """the c interface emits <law>_checkBounds only when an input has bounds or physical bounds"""
+    return any(v.phys or v.std for v in d.inputs)
+
+
 def build_harnesses(ck, descs, gendir):
     R = vlib.REPO
     inc = [os.path.join(gendir, "include"), R + "/mfront/include", ck.work]
     gt = "".join('#include "%s-generic.hxx"\n' % d.law for d in descs)
     gt += "static const Entry table[] = {\n" + "".join('  {"%s", %s},\n' % (d.law, d.law) for d in descs) + "};\n"
     ck.write("c38_generic_table.inc", gt)
-    ct = "".join('#include "%s.hxx"\n' % d.law for d in descs)
-    for d in descs:
+    cdescs = [d for d in descs if has_check_bounds(d)]
+    ct = "".join('#include "%s.hxx"\n' % d.law for d in cdescs)
+    for d in cdescs:
         ct += "static int cb_%s(const double* a){ return %s_checkBounds(%s); }\n" % (
             d.law, d.law, ", ".join("a[%d]" % i for i in range(len(d.inputs))))
-    ct += "static const Entry table[] = {\n" + "".join('  {"%s", %du, cb_%s},\n' % (d.law, len(d.inputs), d.law) for d in descs) + "};\n"
+    ct += "static const Entry table[] = {\n" + "".join('  {"%s", %du, cb_%s},\n' % (d.law, len(d.inputs), d.law) for d in cdescs) + \
+          '  {"", 0u, nullptr}\n};\n'
     ck.write("c38_c_table.inc", ct)
     jobs = [("c38h_generic_main.o", os.path.join(vlib.VERIF, "harness/C38/harness_generic.cxx")),
             ("c38h_c_main.o", os.path.join(vlib.VERIF, "harness/C38/harness_c.cxx"))]
@@ -636,6 +643,8 @@ def run(ck):
             ec = skeleton_c(open(os.path.join(gendir, "src", "%s.cxx" % d.law)).read(), d)
         except Exception as e:
             ec = ["?parser: %r" % e]
+        if not has_check_bounds(d):
+            mc = ["?no-checkBounds"]      # no bounded input: the function is not emitted at all
         skeleton_lines += len(eg) + len(ec)
         for itf, ml, el in (("generic", mg, eg), ("c", mc, ec)):
             for j in range(max(len(ml), len(el))):
@@ -655,7 +664,8 @@ def run(ck):
             for pol in POLICIES:
                 for e0 in ERRNOS:
                     calls.append((d, a, n, pol, e0))
-            cbs.append((d, a))
+            if has_check_bounds(d):
+                cbs.append((d, a))
         for a in vecs[:4]:
             for na in (n - 1, n + 1, 0 if n > 1 else 5):
                 for e0 in ERRNOS:
